@@ -42,8 +42,8 @@ Proof. exact privilege_history_fresh. Qed.
 Print Assumptions C26_privilege_history_fresh.
 
 (** what REVOKE ... CASCADE removes is exactly the part of the delegation graph reachable from the grantees:
-    the recursive [revoke_cascade] (which mutates the table while it walks it and iterates over a stale
-    dependents list) against the declarative [reach] *)
+    the recursive [revoke_cascade] (which mutates the table while it walks it, iterates over a stale dependents
+    list and skips grantees already in its visited set) against the declarative [reach] *)
 Theorem C26_exec_revoke_has : forall s gof privs ot obj grantees casc s',
   exec_revoke s gof privs ot obj grantees casc = (s', ROk) ->
   forall r o q, has_privilege s' r o q = true <->
@@ -157,52 +157,18 @@ Print Assumptions C26_restrict_success_no_dependents.
 
 (** ** REVOKE ... CASCADE as a program: termination *)
 
-(** a REVOKE without GRANT OPTION FOR always returns (recursion depth at most the number of grants + 1) *)
-Theorem C26_revoke_plain_never_crashes : forall s privs ot obj grantees casc,
-  snd (exec_revoke s false privs ot obj grantees casc) <> RCrash.
-Proof. exact revoke_plain_never_crashes. Qed.
-Print Assumptions C26_revoke_plain_never_crashes.
+(** no REVOKE exhausts the recursion budget (number of grants + 1): the walk marks every grantee it visits (fix
+    "revoke-cascade-visited-set").  Before the fix REVOKE GRANT OPTION FOR ... CASCADE recursed forever as soon as a
+    delegation cycle was reachable from a named grantee and the process died of a stack overflow; the witness
+    history of that defect ([PrivLaws.cycle_history]) now returns ([PrivLaws.cycle_history_returns]). *)
+Theorem C26_revoke_never_crashes : forall s gof privs ot obj grantees casc,
+  snd (exec_revoke s gof privs ot obj grantees casc) <> RCrash.
+Proof. exact revoke_never_crashes. Qed.
+Print Assumptions C26_revoke_never_crashes.
 
-(** REVOKE GRANT OPTION FOR ... CASCADE removes nothing while it recurses: on a delegation cycle it recurses
-    forever, whatever the stack budget (KNOWN: revoke-grant-option-cascade-cycle) *)
-Theorem C26_cascade_option_cycle_diverges : forall obj p fuel G x,
-  reach obj G p x x -> revoke_cascade fuel obj p true G x = None.
-Proof. exact cascade_option_cycle_diverges. Qed.
-Print Assumptions C26_cascade_option_cycle_diverges.
-
-Theorem C26_revoke_option_cascade_cycle_crashes : forall s privs ot obj grantees ge p,
-  revoke_object_check s ot obj = None -> all_roles_exist s grantees = true ->
-  In ge grantees -> In p (expand privs ot) -> reach obj (st_grants s) p ge ge ->
-  step s (ORevoke true privs ot obj grantees CCascade) = (s, RCrash).
-Proof. exact revoke_option_cascade_cycle_crashes. Qed.
-Print Assumptions C26_revoke_option_cascade_cycle_crashes.
-
-(** the exact frontier for GRANT OPTION FOR ... CASCADE: it returns (within the model's budget of one frame per
-    grant plus one) when no named grantee reaches a delegation cycle for a named privilege, and it overflows the
-    stack - whatever the budget - as soon as one does *)
-Theorem C26_revoke_option_acyclic_never_crashes : forall s privs ot obj grantees,
-  (forall ge p z, In ge grantees -> In p (expand privs ot) ->
-     z = ge \/ reach obj (st_grants s) p ge z -> ~ reach obj (st_grants s) p z z) ->
-  snd (exec_revoke s true privs ot obj grantees CCascade) <> RCrash.
-Proof. exact revoke_option_acyclic_never_crashes. Qed.
-Print Assumptions C26_revoke_option_acyclic_never_crashes.
-
-Theorem C26_cascade_option_cycle_reachable_diverges : forall obj p fuel G x z,
-  z = x \/ reach obj G p x z -> reach obj G p z z -> revoke_cascade fuel obj p true G x = None.
-Proof. exact cascade_option_cycle_reachable_diverges. Qed.
-Print Assumptions C26_cascade_option_cycle_reachable_diverges.
-
-Theorem C26_revoke_option_cascade_reachable_cycle_crashes : forall s privs ot obj grantees ge p z,
-  revoke_object_check s ot obj = None -> all_roles_exist s grantees = true ->
-  In ge grantees -> In p (expand privs ot) ->
-  z = ge \/ reach obj (st_grants s) p ge z -> reach obj (st_grants s) p z z ->
-  step s (ORevoke true privs ot obj grantees CCascade) = (s, RCrash).
-Proof. exact revoke_option_cascade_reachable_cycle_crashes. Qed.
-Print Assumptions C26_revoke_option_cascade_reachable_cycle_crashes.
-
-Theorem C26_revoke_never_crashes_refuted : exists s h, In RCrash (results s h).
-Proof. exact revoke_never_crashes_refuted. Qed.
-Print Assumptions C26_revoke_never_crashes_refuted.
+Theorem C26_step_never_crashes : forall s o, snd (step s o) <> RCrash.
+Proof. exact step_never_crashes. Qed.
+Print Assumptions C26_step_never_crashes.
 
 (** ** part 2: completeness of the checks over the access paths *)
 
@@ -233,90 +199,75 @@ Theorem C26_all_paths_complete : forall p : path, In p all_paths.
 Proof. exact all_paths_complete. Qed.
 Print Assumptions C26_all_paths_complete.
 
-(** paths_complete: on every path outside the five listed classes every row read or written is covered by a
-    privilege the role holds *)
-Theorem C26_paths_complete : forall p, unguarded_known p = false ->
-  forall held e, In e (snd (run held (program p))) -> permitted held e = true.
+(** paths_complete: on every listed path, whatever the role holds, every row read or written is covered by a
+    privilege the role holds.  (Before the fixes count-star-check-select, in-subquery-index-check-select,
+    bulk-transfer-check-select and upsert-replace-check this failed on twelve paths: [C26_before_defects].) *)
+Theorem C26_paths_complete : forall p held e, In e (snd (run held (program p))) -> permitted held e = true.
 Proof. exact paths_complete. Qed.
 Print Assumptions C26_paths_complete.
 
-(** the full statement is false of the code: every listed path has a role that passes all the checks the
-    path performs and still reads / writes without the privilege (KNOWN: count-star-fast-path,
-    in-subquery-index-path, insert-select-bulk-transfer, insert-on-duplicate-key-update, insert-replace) *)
-Theorem C26_paths_complete_refuted : forall p, unguarded_known p = true ->
-  exists held e, In e (snd (run held (program p))) /\ permitted held e = false /\ fst (run held (program p)) = OOk.
-Proof. exact paths_complete_refuted. Qed.
-Print Assumptions C26_paths_complete_refuted.
-
-(** "otherwise it fails" *)
-Theorem C26_paths_deny : forall p, unguarded_known p = false -> silent_known p = false ->
-  forall held t a, In (t, a) (required p) -> held t a = false -> fst (run held (program p)) = ODenied.
+(** "otherwise it fails" (before the fixes delete-where-propagate-denied and window-partition-propagate-error
+    three paths swallowed the refusal) *)
+Theorem C26_paths_deny : forall p held t a,
+  In (t, a) (required p) -> held t a = false -> fst (run held (program p)) = ODenied.
 Proof. exact paths_deny. Qed.
 Print Assumptions C26_paths_deny.
 
-(** DELETE swallows the refusal raised inside its WHERE clause, the window PARTITION BY clause the one raised by
-    a subquery inside it: the statement succeeds, without the subquery's rows
-    (KNOWN: delete-where-error-swallowed, window-partition-error-swallowed) *)
-Theorem C26_paths_deny_refuted : exists p held t a,
-  unguarded_known p = false /\ In (t, a) (required p) /\ held t a = false /\ fst (run held (program p)) = OOk.
-Proof. exact paths_deny_refuted. Qed.
-Print Assumptions C26_paths_deny_refuted.
-
-(** "and changes nothing" *)
-Theorem C26_paths_denied_change_nothing : forall p, partial_known p = false ->
-  forall held, fst (run held (program p)) = ODenied -> filter is_change (snd (run held (program p))) = [].
+(** "and changes nothing" (before the fix truncate-cascade-check-first TRUNCATE t1, t2 CASCADE truncated t1 and
+    was then refused) *)
+Theorem C26_paths_denied_change_nothing : forall p held,
+  fst (run held (program p)) = ODenied -> filter is_change (snd (run held (program p))) = [].
 Proof. exact paths_denied_change_nothing. Qed.
 Print Assumptions C26_paths_denied_change_nothing.
 
-(** TRUNCATE t1, t2 CASCADE truncates t1 before it checks the dependants of t2 (KNOWN: truncate-multi-cascade-partial) *)
-Theorem C26_paths_denied_change_nothing_refuted : exists p held,
-  fst (run held (program p)) = ODenied /\ filter is_change (snd (run held (program p))) <> [].
-Proof. exact paths_denied_change_nothing_refuted. Qed.
-Print Assumptions C26_paths_denied_change_nothing_refuted.
+Theorem C26_paths_lacking : forall p held t a,
+  In (t, a) (required p) -> held t a = false ->
+  fst (run held (program p)) = ODenied /\ filter is_change (snd (run held (program p))) = [].
+Proof. exact paths_lacking. Qed.
+Print Assumptions C26_paths_lacking.
 
 (** the requirement lists were not tuned to the code: they are exactly the data flows of the programs *)
 Theorem C26_required_is_flows : forall p, same_set (required p) (flows (program p)) = true.
 Proof. exact required_is_flows. Qed.
 Print Assumptions C26_required_is_flows.
 
-(** after the proposed repairs (fixes/C26-*.patch) the property holds of the whole table *)
-Theorem C26_paths_fixed_complete : forall p held,
-  (forall e, In e (snd (run held (program_fixed p))) -> permitted held e = true) /\
-  (forall t a, In (t, a) (required p) -> held t a = false ->
-     fst (run held (program_fixed p)) = ODenied /\ filter is_change (snd (run held (program_fixed p))) = []).
-Proof. exact paths_fixed_complete. Qed.
-Print Assumptions C26_paths_fixed_complete.
+(** for the record: the table as it was before the fixes ([program_before]) and exactly which paths were
+    unguarded / silent / partial; every other path is unchanged *)
+Theorem C26_before_defects :
+  before_unguarded =
+    [P_count_star_order_by; P_count_star_limit; P_count_star_union_arm; P_count_star_with_cte; P_count_star_scalar_limit;
+     P_in_index_order_by; P_in_index_group_by; P_in_index_partition_by; P_insert_select_bulk;
+     P_on_duplicate_key_update; P_replace_into; P_insert_or_replace] /\
+  before_silent = [P_window_partition_subquery; P_delete_where_subquery; P_delete_where_exists] /\
+  before_partial = [P_truncate_multi_cascade].
+Proof. exact before_defects. Qed.
+Print Assumptions C26_before_defects.
+
+Theorem C26_program_unchanged_elsewhere : forall p,
+  In p before_unguarded \/ In p before_silent \/ In p before_partial \/ program p = program_before p.
+Proof. exact program_unchanged_elsewhere. Qed.
+Print Assumptions C26_program_unchanged_elsewhere.
 
 (** ** the two parts together: the property as stated *)
 
-(** for any history of CREATE ROLE / GRANT / REVOKE / ... and any statement of a listed shape (outside the known
-    classes) executed under a non-administrator role with security enabled: a table's rows are read only if the
-    history left the role SELECT on it - i.e. some GRANT gave it and no later REVOKE matched it, or it was held
-    initially and never revoked - and rows are inserted / updated / deleted only with the matching privilege *)
+(** for any history of CREATE ROLE / GRANT / REVOKE / ... and any statement of a listed shape executed under a
+    non-administrator role with security enabled: a table's rows are read only if the history left the role
+    SELECT on it - i.e. some GRANT gave it and no later REVOKE matched it, or it was held initially and never
+    revoked - and rows are inserted / updated / deleted only with the matching privilege *)
 Theorem C26_access_follows_history : forall s0 h r p,
-  is_admin r = false -> unguarded_known p = false ->
+  is_admin r = false ->
   forall e, In e (snd (run (held_in (session_after s0 h r)) (program p))) -> event_justified s0 h r e.
 Proof. exact access_follows_history. Qed.
 Print Assumptions C26_access_follows_history.
 
-(** otherwise it fails and changes nothing (outside the silent and the partial class) *)
+(** otherwise it fails and changes nothing *)
 Theorem C26_lacking_fails_and_changes_nothing : forall s0 h r p t a,
-  is_admin r = false -> unguarded_known p = false -> silent_known p = false -> partial_known p = false ->
+  is_admin r = false ->
   In (t, a) (required p) -> ~ held_by_history s0 h r (name_of t) (priv_of a) ->
   fst (run (held_in (session_after s0 h r)) (program p)) = ODenied /\
   filter is_change (snd (run (held_in (session_after s0 h r)) (program p))) = [].
 Proof. exact lacking_fails_and_changes_nothing. Qed.
 Print Assumptions C26_lacking_fails_and_changes_nothing.
-
-(** both, for every listed shape, once the proposed repairs are in *)
-Theorem C26_access_follows_history_fixed : forall s0 h r p,
-  is_admin r = false ->
-  (forall e, In e (snd (run (held_in (session_after s0 h r)) (program_fixed p))) -> event_justified s0 h r e) /\
-  (forall t a, In (t, a) (required p) -> ~ held_by_history s0 h r (name_of t) (priv_of a) ->
-     fst (run (held_in (session_after s0 h r)) (program_fixed p)) = ODenied /\
-     filter is_change (snd (run (held_in (session_after s0 h r)) (program_fixed p))) = []).
-Proof. exact access_follows_history_fixed. Qed.
-Print Assumptions C26_access_follows_history_fixed.
 
 Theorem C26_admin_never_refused : forall s p,
   st_security s = false \/ is_admin (current_role s) = true ->
